@@ -81,7 +81,7 @@ def conc_in_units(rng, molal, units, gfw):
     return molal
 
 
-def gen_solution(rng, db, number=1, hard=False):
+def gen_solution(rng, db, number=1, hard=False, focus=None):
     prim, val = elements_of(db)
     meta = {"elements": [], "features": []}
     lines = [f"SOLUTION {number}"]
@@ -93,6 +93,9 @@ def gen_solution(rng, db, number=1, hard=False):
     lines.append(f" units {units}")
     nel = rng.randint(1, 8)
     chosen = rng.sample(prim, min(nel, len(prim)))
+    if focus:                                   # elements that carry the generated species of a synthetic database
+        fs = [e for e in focus if e in prim]
+        chosen = rng.sample(fs, min(len(fs), rng.randint(2, 6)))
     redox = [e for e in prim if e in val]
     poly = polyatomic_redox(db)
     if poly and rng.random() < 0.2:              # a valence master with several atoms of the element (N2, S2O3-2 …)
@@ -171,9 +174,11 @@ def gen_solution(rng, db, number=1, hard=False):
     return "\n".join(lines) + "\n", meta
 
 
-def gen_run(rng, db, kind=None):
-    kind = kind or rng.choice(["solution"] * 6 + ["reaction", "mix", "temperature"])
-    text, meta = gen_solution(rng, db, 1)
+def gen_run(rng, db, kind=None, focus=None):
+    kind = kind or rng.choice(["solution"] * 6 + ["reaction", "mix", "temperature", "extra", "extra"])
+    if kind == "extra":
+        return gen_run_extra(rng, db)
+    text, meta = gen_solution(rng, db, 1, focus=focus)
     meta["kind"] = kind
     if kind == "solution":
         return text + TAIL, meta
@@ -214,3 +219,160 @@ def gen_sweep(db):
                     lines.append(f" {bg} {c}")
             texts.append("\n".join(lines) + "\n" + TAIL)
     return texts
+
+
+# ----------------------------------------------------------------------------- synthetic database
+CATIONS = [("Na", "Na+", 1), ("K", "K+", 1), ("Li", "Li+", 1), ("Ca", "Ca+2", 2), ("Mg", "Mg+2", 2), ("Ba", "Ba+2", 2),
+           ("Sr", "Sr+2", 2), ("Mn", "Mn+2", 2), ("Zn", "Zn+2", 2), ("Cd", "Cd+2", 2), ("Cu", "Cu+2", 2), ("Al", "Al+3", 3)]
+ANIONS = [("Cl", "Cl-", -1), ("Br", "Br-", -1), ("F", "F-", -1), ("NO3", "NO3-", -1), ("SO4", "SO4-2", -2)]
+DH_UNITS = ["", "kJ/mol", "kj", "kJ", "kcal/mol", "kcal", "KCAL", "cal/mol", "cal", "J/mol", "joules", "Joules/mol", "j",
+            "kjoules"]
+LOGK_SPELL = ["log_k", "-log_k", "logk", "-logk", "log_k =", "-lo"]
+DH_SPELL = ["delta_h", "-delta_h", "deltah", "-deltah", "-delta_H", "-d"]
+AN_SPELL = ["-analytic", "-analytical_expression", "analytical_expression", "-a_e", "a_e", "-ae", "ae", "-a", "-an", "-Analytic"]
+
+
+def _charge(z):
+    return "" if z == 0 else ("+" if z == 1 else "-" if z == -1 else "%+d" % z)
+
+
+def _logk_options(rng, named, feats, const=True):
+    """random thermodynamic option lines for one reaction (species, phase or named expression)"""
+    L = []
+    r = rng.random()
+    if r < 0.8:
+        L.append(f"  {rng.choice(LOGK_SPELL)} {fmt(rng.uniform(-3, 3))}")
+    if rng.random() < 0.7:
+        u = rng.choice(DH_UNITS)
+        scale = 1.0
+        lu = u.lower()
+        if "c" in lu:
+            scale /= 4.184
+        if lu and not lu.startswith("k"):
+            scale *= 1000.0
+        L.append(f"  {rng.choice(DH_SPELL)} {fmt(rng.uniform(-60, 60) * scale)} {u}")
+        feats.append("dh:" + (u or "default"))
+    if rng.random() < 0.45:
+        n = rng.randint(1, 6)
+        mags = [30, 0.02, 3000, 10, 2e5, 1e-5]
+        vals = [fmt(rng.uniform(-m, m)) for m in mags[:n]]
+        L.append(f"  {rng.choice(AN_SPELL)} " + " ".join(vals))
+        feats.append(f"analytic:{n}")
+    if named and rng.random() < 0.5:
+        for _ in range(rng.randint(1, 3)):
+            nm = rng.choice(named)
+            form = rng.random()
+            if form < 0.25:
+                L.append(f"  -add_logk {nm}")                       # coefficient defaults to 1
+                feats.append("add_logk:default")
+            else:
+                c = rng.choice([0, 0.0, -1, -0.5, 2, 1.5, -2.25, 1])
+                L.append(f"  {rng.choice(['-add_logk', '-add_log_k', 'add_logk'])} {nm} {c}")
+                feats.append("add_logk:" + ("zero" if c == 0 else "neg" if c < 0 else "pos"))
+    if const and rng.random() < 0.2:
+        L.append(f"  -add_constant {fmt(rng.uniform(-1, 1))}")
+        feats.append("add_constant")
+    rng.shuffle(L)
+    return L
+
+
+def gen_synth_db(rng, base_text, db):
+    """phreeqc.dat-like text + NAMED_EXPRESSIONS (chained), extra SOLUTION_SPECIES and PHASES whose log K options use every
+    spelling (delta_h units, analytic prefixes, add_logk with negative/zero/default coefficients, add_constant, ln_alpha1000)"""
+    feats = []
+    cut = base_text.rfind("\nEND")
+    head = base_text[:cut] if cut > 0 else base_text
+    out = [head, "", "NAMED_EXPRESSIONS"]
+    names = [rng.choice(["Syn_", "syn_", "SYN_K"]) + str(i) for i in range(rng.randint(3, 7))]
+    forward = rng.random() < 0.4                 # references point to later expressions (resolved recursively by tidy)
+    named = names
+    for i, nm in enumerate(names):
+        out.append(nm)
+        opts = _logk_options(rng, [], feats, const=False)
+        if not opts:
+            opts = ["  log_k 0.5"]
+        out += opts
+        pool = names[i + 1:] if forward else names[:i]
+        if pool and rng.random() < 0.6:           # chained named expressions (acyclic)
+            for _ in range(rng.randint(1, 2)):
+                c = rng.choice([0, -1, 0.5, 2, -0.25])
+                out.append(f"  -add_logk {rng.choice(pool)} {c}")
+            feats.append("named-forward" if forward else "named-chain")
+        if rng.random() < 0.25:
+            vals = " ".join(fmt(rng.uniform(-40, 40)) for _ in range(rng.randint(1, 6)))
+            out.append(f"  -ln_alpha1000 {vals}")
+            feats.append("ln_alpha1000")
+    out.append("SOLUTION_SPECIES")
+    pairs = [(c, a) for c in CATIONS for a in ANIONS]
+    rng.shuffle(pairs)
+    made = []
+    for (ce, cs, cz), (ae, as_, az) in pairs:
+        if len(made) >= rng.randint(8, 16):
+            break
+        name = f"{ce}{ae}{_charge(cz + az)}"
+        if name in db.species or name in made or not db.master_of_element(ce) or not db.master_of_element(ae.rstrip("0123456789")):
+            continue
+        out.append(f"{cs} + {as_} = {name}")
+        opts = _logk_options(rng, [n if rng.random() < 0.5 else n.upper() for n in named], feats)
+        out += opts or ["  log_k 0.1"]
+        if rng.random() < 0.3:
+            out.append(f"  -gamma {fmt(rng.uniform(3, 6))} {fmt(rng.uniform(0, 0.1))}")
+        made.append(name)
+    out.append("PHASES")
+    nph = 0
+    for (ce, cs, cz), (ae, as_, az) in pairs[::-1]:
+        if nph >= 5:
+            break
+        if abs(az) == 0 or cz % abs(az) not in (0,) and abs(az) % cz != 0:
+            continue
+        na, nc = (cz // abs(az), 1) if cz % abs(az) == 0 else (1, abs(az) // cz)
+        formula = f"{ce}{nc if nc > 1 else ''}" + (f"({ae}){na}" if na > 1 else ae)
+        out.append(f"Syn_{ce}{ae}")
+        out.append(f"  {formula} = {nc if nc > 1 else ''}{cs} + {na if na > 1 else ''}{as_}")
+        out += _logk_options(rng, named, feats) or ["  log_k -1"]
+        nph += 1
+    out.append("END")
+    return "\n".join(out) + "\n", {"species": made, "named": named, "features": feats}
+
+
+# ----------------------------------------------------------------------------- further kinds of runs (phreeqc.dat-like databases)
+def gen_run_extra(rng, db):
+    """exchange / surface / equilibrium-phase / advection histories: the aqueous mass action must hold in every punched state"""
+    kind = rng.choice(["exchange", "surface", "equilibrium_phases", "advection", "transport", "two-calls"])
+    text, meta = gen_solution(rng, db, 1)
+    meta["kind"] = kind
+    have = set(m.element for m in db.masters)
+    if kind == "exchange" and getattr(db, "exchange_masters", None):
+        x = db.exchange_masters[0][0]
+        return text + TAIL + f"USE solution 1\nEXCHANGE 1\n {x} {fmt(log_uniform(rng, 1e-4, 0.1))}\n -equilibrate 1\nEND\n" + \
+            f"USE exchange 1\nUSE solution 1\nREACTION 1\n NaCl 1\n {fmt(log_uniform(rng, 1e-5, 0.05))}\nEND\n", meta
+    if kind == "surface" and getattr(db, "surface_masters", None):
+        names = [m[0] for m in db.surface_masters if "psi" not in m[0].lower()]
+        if names:
+            lines = "".join(f" {n} {fmt(log_uniform(rng, 1e-5, 1e-3))} 600 {fmt(rng.uniform(0.1, 5))}\n" if k == 0 else
+                            f" {n} {fmt(log_uniform(rng, 1e-5, 1e-3))}\n" for k, n in enumerate(names[:2]))
+            edl = rng.choice(["", " -no_edl\n"])
+            return text + TAIL + f"USE solution 1\nSURFACE 1\n{lines} -equilibrate 1\n{edl}END\n", meta
+    if kind == "equilibrium_phases" and db.phases:
+        cand = [p for p, ph in db.phases.items() if "(g)" not in p and set(ph.elements) <= (have | {"H", "O"}) and len(ph.elements) <= 4]
+        if cand:
+            ps = rng.sample(cand, min(len(cand), rng.randint(1, 2)))
+            lines = "".join(f" {p} {fmt(rng.uniform(-0.5, 0.5))} {fmt(log_uniform(rng, 1e-4, 0.1))}\n" for p in ps)
+            return text + TAIL + f"USE solution 1\nEQUILIBRIUM_PHASES 1\n{lines}END\n", meta
+    if kind in ("advection", "transport"):
+        t2, m2 = gen_solution(rng, db, 0)
+        meta["elements"] += m2["elements"]
+        cells = rng.randint(2, 4)
+        body = text.replace("SOLUTION 1", f"SOLUTION 1-{cells}", 1) + t2
+        if kind == "advection":
+            step = f"ADVECTION\n -cells {cells}\n -shifts {rng.randint(1, 3)}\n -punch_cells 1-{cells}\nEND\n"
+        else:
+            step = (f"TRANSPORT\n -cells {cells}\n -shifts {rng.randint(1, 3)}\n -lengths {fmt(rng.uniform(0.1, 2))}\n"
+                    f" -dispersivities {fmt(rng.uniform(0, 0.2))}\n -time_step {fmt(log_uniform(rng, 10, 1e5))}\n"
+                    f" -punch_cells 1-{cells}\nEND\n")
+        return body + TAIL + step, meta
+    # two-calls: the solution is redefined in a later simulation of the same text and reacted again
+    t2, m2 = gen_solution(rng, db, 1)
+    meta["elements"] += m2["elements"]
+    meta["kind"] = "redefinition"
+    return text + TAIL + t2 + "END\nUSE solution 1\nREACTION_TEMPERATURE 1\n " + fmt(rng.uniform(0, 100)) + "\nEND\n", meta
